@@ -21,7 +21,10 @@ from pathlib import Path
 import vlib
 import c04_oracle as oracle
 
-PUPPETS = ["c04_straight", "c04_control", "c04_generic", "c04_many"]
+PUPPETS = ["c04_straight", "c04_control", "c04_generic", "c04_many", "c04_twocrate"]
+# binary crate -> library crate (rlib).  The QUERIED source file of such a puppet is the library's: its code is
+# spread over two compilation units (non-generic functions in the rlib's unit, generics in the binary's unit).
+PUPPET_LIBS = {"c04_twocrate": "c04_shapes"}
 SRC = vlib.VERIF / "puppets" / "c04"
 WORK = vlib.WORK / "c04"
 
@@ -41,6 +44,14 @@ def matrix(tier):
     return cfgs
 
 
+def source_of(puppet):
+    return SRC / f"{PUPPET_LIBS.get(puppet, puppet)}.rs"
+
+
+def roots_of(puppet):
+    return [SRC / f"{puppet}.rs"] + ([SRC / f"{PUPPET_LIBS[puppet]}.rs"] if puppet in PUPPET_LIBS else [])
+
+
 def cfg_key(c):
     return f"{c['tc']}-O{c['opt']}-{'dw5' if c['dwarf'] else 'dwdef'}-{'pie' if c['pie'] else 'nopie'}"
 
@@ -58,13 +69,20 @@ def build(puppet, c):
         flags += ["-C", f"dwarf-version={c['dwarf']}"]
     if not c["pie"]:
         flags += ["-C", "relocation-model=static", "-C", "link-arg=-no-pie"]
-    h = hashlib.sha1((src.read_text() + " ".join(flags) + _rustc_v[c["tc"]]).encode()).hexdigest()[:16]
+    lib = PUPPET_LIBS.get(puppet)
+    libsrc = (SRC / f"{lib}.rs").read_text() if lib else ""
+    h = hashlib.sha1((src.read_text() + libsrc + " ".join(flags) + _rustc_v[c["tc"]]).encode()).hexdigest()[:16]
     outdir = vlib.PUPPET_BUILD / f"c04-{h}"
     exe = outdir / puppet
     if not exe.exists():
         outdir.mkdir(parents=True, exist_ok=True)
         # cwd = source dir and a relative source name: DW_AT_comp_dir / DW_AT_name are then stable
-        vlib.sh(["rustc", f"+{c['tc']}"] + flags + ["-o", str(exe) + ".tmp", f"{puppet}.rs"], cwd=SRC, timeout=300)
+        ext = []
+        if lib:
+            vlib.sh(["rustc", f"+{c['tc']}"] + flags + ["--crate-type", "rlib", "--crate-name", lib,
+                                                       "--out-dir", str(outdir), f"{lib}.rs"], cwd=SRC, timeout=300)
+            ext = ["--extern", f"{lib}={outdir}/lib{lib}.rlib"]
+        vlib.sh(["rustc", f"+{c['tc']}"] + flags + ext + ["-o", str(exe) + ".tmp", f"{puppet}.rs"], cwd=SRC, timeout=300)
         os.replace(str(exe) + ".tmp", exe)
         native = subprocess.run([str(exe)], stdout=subprocess.PIPE, stderr=subprocess.PIPE, timeout=30)
         if native.returncode != 0:
@@ -385,8 +403,8 @@ def ask_debugger(exe_harness, binary, dec, tag, run=True, timeout=240):
     return rc, err, ans
 
 
-def oracle_for(binary, source, tag):
-    dec = oracle.decode(str(binary), str(source))
+def oracle_for(binary, source, tag, roots=None):
+    dec = oracle.decode(str(binary), str(source), crate_roots=roots)
     if not dec["rows"] or not dec["pcs"]:
         raise vlib.ToolError(f"vacuous decode of {binary}: {len(dec['rows'])} rows, {len(dec['pcs'])} pcs")
     expected, r = oracle.evaluate(dec, WORK / f"eval-{tag}", workers=1)
@@ -462,8 +480,8 @@ def run(rep, tier, replay):
             if c is None or sc["program"] not in PUPPETS:
                 raise vlib.ToolError(f"replay: unknown program/config {sc['program']} {sc['config']}")
             binary = build(sc["program"], c)
-            source = SRC / f"{sc['program']}.rs"
-            dec, expected, r = oracle_for(binary, source, f"{sc['program']}-{sc['config']}")
+            source = source_of(sc["program"])
+            dec, expected, r = oracle_for(binary, source, f"{sc['program']}-{sc['config']}", roots_of(sc["program"]))
             tlc_states += r.distinct
             tlc_trans += r.generated
             q = sc["query"] if sc["query"].get("q") not in ("start", "session") else None
@@ -488,7 +506,7 @@ def run(rep, tier, replay):
     if tier == "thorough":
         keep = []
         for p, c in jobs:
-            full = p in ("c04_generic", "c04_straight")
+            full = p in ("c04_generic", "c04_straight", "c04_twocrate")
             if full or (c["dwarf"] == 0 and c["pie"]) or (c["tc"] == "1.89" and c["opt"] == 0):
                 keep.append((p, c))
         jobs = keep
@@ -500,16 +518,32 @@ def run(rep, tier, replay):
 
     def orc(job):
         p, c = job
-        return oracle_for(builds[(p, cfg_key(c))], SRC / f"{p}.rs", f"{p}-{cfg_key(c)}")
+        return oracle_for(builds[(p, cfg_key(c))], source_of(p), f"{p}-{cfg_key(c)}", roots_of(p))
 
     with ThreadPoolExecutor(max_workers=4) as ex:
         oracles = list(ex.map(orc, jobs))
     vlib.log(f"[C04] {len(oracles)} tables evaluated by TLC {time.time()-t0:.0f}s")
+    # vacuity of the multi-unit case: the queried file of the two-crate puppet must have code in >= 2 units and
+    # lines N with code in one unit while another unit has no row for N but a statement row for N+1
+    split_lines = 0
+    for (p, c), (dec, expected, r) in zip(jobs, oracles):
+        if p not in PUPPET_LIBS:
+            continue
+        per_unit = {}
+        for row in dec["rows"]:
+            if row["file"] == dec["src_id"] and not row["es"]:
+                per_unit.setdefault(row["unit"], {}).setdefault(row["line"], []).append(row["stmt"])
+        n = sum(1 for u, lines in per_unit.items() for l in lines
+                for v, other in per_unit.items() if v != u and l not in other and any(other.get(l + 1, [])))
+        if dec["units_with_rows_of_source"] < 2 or n == 0:
+            raise vlib.ToolError(f"vacuous: {p} [{cfg_key(c)}] does not spread {dec['source']} over two units "
+                                 f"(units={dec['units_with_rows_of_source']}, split lines={n})")
+        split_lines += n
     nbin = 0
     for (p, c), (dec, expected, r) in zip(jobs, oracles):
         tlc_states += r.distinct
         tlc_trans += r.generated
-        run_binary(rep, exe, p, cfg_key(c), builds[(p, cfg_key(c))], SRC / f"{p}.rs", dec, expected, totals)
+        run_binary(rep, exe, p, cfg_key(c), builds[(p, cfg_key(c))], source_of(p), dec, expected, totals)
         nbin += 1
         if len(samples) < 6:
             multi = [a for a in expected if a["q"] == "line" and len(a["funcs"]) > 1]
@@ -537,6 +571,6 @@ def run(rep, tier, replay):
     cov = {"states": tlc_states, "transitions": tlc_trans,
            "traces_validated_against_impl": nbin + synth["synth_objects"],
            "samples": samples + synth["samples"],
-           "queries_compared": queries, "binaries": nbin, "totals": agg, "small_tables": small["summary"],
+           "queries_compared": queries, "binaries": nbin, "lines_split_over_units": split_lines, "totals": agg, "small_tables": small["summary"],
            "per_binary": totals, "skipped": {k: v["skipped"] for k, v in totals.items() if "skipped" in v}}
     return rep.finish("model_checking", cov, assumptions=assumptions)
